@@ -436,5 +436,6 @@ func main() {
 	r.Assume("the environment name is an input (what the router's environment lookup returned, \"\" when it returned nothing); that the router passes the same key, environment and dataset to ingestion and to the span is the router fixture's business, not checked here")
 	r.Assume("a destination with neither its own sampler nor __default__ (possible only with --no-validate) has no sampler at all and is outside the statement; such inputs are counted as skipped")
 	r.Assume("'available when it decides' is observed end to end: the value of every field the selected sampler reads appears in the key that sampler computed inside the real makeDecision, on every ingestion path")
+	envLookupPart(r)
 	r.Finish()
 }
